@@ -351,7 +351,7 @@ func main() {
 		run(c, tc{Kind: 4, Key: seq, MsgKey: seq[100:116], Side: sd})
 	}
 	run(c, tc{Kind: 3, Key: seq, MsgKey: seq[100:116]})
-	n := c.N(24, 700)
+	n := c.N(24, 150)
 	for i := 0; i < n; i++ {
 		run(c, tc{Kind: 0, Key: genKey(r), Plain: r.Bytes(16 * r.Intn(12)), Side: r.Intn(2)})
 		run(c, tc{Kind: 1, Key: genKey(r), MsgKey: r.Bytes(16), Side: r.Intn(2)})
